@@ -35,3 +35,16 @@ def _(vc):
     vc.ensure("equal_scopes_are_equal", vc.I.truth(vc.call((s1, "__eq__"), s2)))
     h1, h2 = vc.call((s1, "__hash__")), vc.call((s2, "__hash__"))
     vc.ensure("equal_scopes_hash_alike", to_z3(h1) == to_z3(h2))
+
+
+@obligation("C08.Scope.hash_respects_equality.enumerated", "C08", [f"{SC}:Scope.__hash__", f"{SC}:Scope.__eq__", f"{SC}:Scope.__init__"])
+def _(vc):
+    """the same clause for scopes assembled from the same two / three variables listed in different orders (quantifier-free instance: a hash that
+    depends on the order in which the set happens to be iterated is refuted here with a model)"""
+    x, y, z = vc.int("x"), vc.int("y"), vc.int("z")
+    vc.assume(z3.And(x >= 0, y >= 0, z >= 0, z3.Distinct(x, y, z)))
+    for tag, la, lb in (("two", [x, y], [y, x]), ("three", [x, y, z], [z, x, y])):
+        s1, s2 = vc.new(f"{SC}:Scope", la), vc.new(f"{SC}:Scope", lb)
+        vc.ensure(f"{tag}.equal_scopes_are_equal", vc.I.truth(vc.call((s1, "__eq__"), s2)))
+        h1, h2 = vc.call((s1, "__hash__")), vc.call((s2, "__hash__"))
+        vc.ensure(f"{tag}.equal_scopes_hash_alike", to_z3(h1) == to_z3(h2))
